@@ -31,8 +31,17 @@ pub fn create(array: InstructionWithStr) -> Result<Instruction, Error> {
     .into())
 }
 
-pub fn exec(var: Variable) -> ExecResult {
-    let return_type = var.as_type();
+pub fn exec(var: Variable, static_type: Type) -> ExecResult {
+    // an iterator made from `[]` has the element type `!`, which fits every helper: its (empty)
+    // sum is the one of the element type the operand is declared with
+    let declared = matches!(
+        static_type.iter_element(),
+        Some(Type::Int | Type::Float | Type::String)
+    );
+    let return_type = match var.as_type() {
+        run_time if declared && run_time.iter_element() == Some(Type::Never) => static_type,
+        run_time => run_time,
+    };
     if return_type.matches(&var_type!(() -> (bool, int))) {
         Ok(Variable::from(INT_SUM)
             .as_function()
